@@ -683,6 +683,7 @@ def install(it):
             if verb == 'q': return '"' + v.decode('utf-8', 'replace') + '"'
             return v.decode('utf-8', 'replace')
         if isinstance(v, SymStr): return '<symstr>'
+        if isinstance(v, ChoiceStr): return '<choice>'
         if is_sym(v):
             s = z3.simplify(v)
             if z3.is_bv_value(s): return str(s.as_long())
